@@ -241,6 +241,29 @@ int main(void) {
             if (ZSTD_isError(r)) printf("err %s consumed=%zu hints=%s\n", zv_errclass(r), consumed, hs);
             else printf("ok %zu %016llx consumed=%zu hints=%s overask=%d lastret=%s\n", produced, (unsigned long long)XXH64(out, produced, 0), consumed, hs, over, r == 0 ? "0" : "+");
             free(in0); free(in); free(out);
+        } else if (!strcmp(op, "cseq") || !strcmp(op, "genseq")) {
+            /* cseq <id=val,...|-> <hex-src> <off:ll:ml,...|-> [dict-hex] : ZSTD_compressSequences -> hex frame | err
+             * genseq <id=val,...|-> <hex-src> <merge 0|1> : ZSTD_generateSequences (+ mergeBlockDelimiters) -> off:ll:ml list */
+            int gen = !strcmp(op, "genseq"); char* ps = strtok(NULL, " "); size_t n, dn = 0; unsigned char* in = zv_unhex(strtok(NULL, " "), &n); char* sq = strtok(NULL, " "); char* dh = strtok(NULL, " ");
+            unsigned char* d = (dh && !gen) ? zv_unhex(dh, &dn) : NULL; size_t r = 0; char* save = NULL; char* kv;
+            ZSTD_CCtx_reset(cctx, ZSTD_reset_session_and_parameters);
+            for (kv = strtok_r(ps, ",", &save); kv && !ZSTD_isError(r); kv = strtok_r(NULL, ",", &save)) { int id, val; if (sscanf(kv, "%d=%d", &id, &val) == 2) r = ZSTD_CCtx_setParameter(cctx, (ZSTD_cParameter)id, val); }
+            if (gen) {
+                size_t cap = ZSTD_sequenceBound(n) + 16; ZSTD_Sequence* sv = (ZSTD_Sequence*)malloc(cap * sizeof *sv); size_t k, i;
+                k = ZSTD_isError(r) ? r : ZSTD_generateSequences(cctx, sv, cap, in, n);
+                if (!ZSTD_isError(k) && sq && sq[0] == '1') k = ZSTD_mergeBlockDelimiters(sv, k);
+                if (ZSTD_isError(k)) printf("err %s\n", zv_errclass(k)); else { if (!k) putchar('-'); for (i = 0; i < k; i++) printf("%s%u:%u:%u", i ? "," : "", sv[i].offset, sv[i].litLength, sv[i].matchLength); putchar('\n'); }
+                free(sv);
+            } else {
+                size_t ns = 0, cap = 16, i; ZSTD_Sequence* sv = (ZSTD_Sequence*)malloc(cap * sizeof *sv); char* t; char* s2 = NULL; size_t ocap = ZSTD_compressBound(n) + 1024; unsigned char* out = (unsigned char*)malloc(ocap);
+                if (sq[0] != '-') for (t = strtok_r(sq, ",", &s2); t; t = strtok_r(NULL, ",", &s2)) { unsigned a, b, c; if (sscanf(t, "%u:%u:%u", &a, &b, &c) == 3) { if (ns == cap) { cap *= 2; sv = (ZSTD_Sequence*)realloc(sv, cap * sizeof *sv); } sv[ns].offset = a; sv[ns].litLength = b; sv[ns].matchLength = c; sv[ns].rep = 0; ns++; } }
+                { ZSTD_Sequence* exact = (ZSTD_Sequence*)malloc((ns ? ns : 1) * sizeof *sv); memcpy(exact, sv, ns * sizeof *sv); free(sv); sv = exact; (void)i; }   /* exact-size array: ASan sees reads past it */
+                if (d && !ZSTD_isError(r)) r = ZSTD_CCtx_loadDictionary(cctx, d, dn);
+                if (!ZSTD_isError(r)) r = ZSTD_compressSequences(cctx, out, ocap, sv, ns, in, n);
+                if (ZSTD_isError(r)) printf("err %s\n", zv_errclass(r)); else { zv_puthex(out, r); putchar('\n'); }
+                free(sv); free(out);
+            }
+            free(in); free(d);
         } else if (!strcmp(op, "cbound")) {
             unsigned long long n = strtoull(strtok(NULL, " "), NULL, 10); size_t b = ZSTD_compressBound((size_t)n); if (ZSTD_isError(b)) printf("E\n"); else printf("%llu\n", (unsigned long long)b);
         } else if (!strcmp(op, "ccap")) {
